@@ -139,8 +139,11 @@ def r05_2(ctx):
         st = sc.stmt_of(smp[0]) if smp else None
         names = [e.id for e in st.targets[0].elts] if st is not None and isinstance(st, ast.Assign) and isinstance(st.targets[0], (ast.List, ast.Tuple)) else [None, None]
         ts, ex = names
-        want = Norm(None).key(ast.parse("ca.sum2(ca.diff(%s).T*%s[:,:-1])" % (ts, ex), mode="eval").body)
-        ok = ok and Norm(None).key(v) == want
+        # the weighted left sum over nodes 0..N-1, with the interval lengths as a COLUMN whatever the orientation of the time grid
+        # (D96: diff(ts).T * exprs pairs a row-vector grid with the components of a vector integrand instead of with the nodes)
+        want = {Norm(None).key(ast.parse(t % {"ts": ts, "ex": ex}, mode="eval").body) for t in
+                ("ca.mtimes(%(ex)s[:,:-1], ca.diff(ca.vec(%(ts)s)))", "mtimes(%(ex)s[:,:-1], ca.diff(ca.vec(%(ts)s)))", "%(ex)s[:,:-1] @ ca.diff(ca.vec(%(ts)s))", "ca.mtimes(%(ex)s[:,:-1], ca.diff(vec(%(ts)s)))")}
+        ok = ok and Norm(None).key(v) in want
     ctx.check(ok, "fill_placeholders_integral_control is the left sum weighted with the interval lengths", detail="integral(grid='control') rule",
               expected="sum_k (t_{k+1}-t_k) * expr(node k), k=0..N-1, from the control-grid samples", found=found, fi=f, sample={"rule": found})
     g = prog.own_method("Stage", "sum")
